@@ -63,7 +63,7 @@ macro_rules! scenario {
                     aux_keys.push(k);
                 }
             }
-            let invalid = vec![1u32];
+            let invalid = vec![(n - 1) as u32, 0u32]; // deliberately not in ascending order
             block.invalid_transactions = Some(invalid.clone());
             let hashes: Vec<Vec<u8>> = block.transaction_bodies.iter().map(|b| pallas_crypto::hash::Hasher::<256>::hash(b.raw_cbor()).to_vec()).collect();
             let wits: Vec<Vec<u8>> = block.transaction_witness_sets.iter().map(|w| w.raw_cbor().to_vec()).collect();
